@@ -17,6 +17,16 @@
 #include <AIToolbox/POMDP/SparseModel.hpp>
 #include <AIToolbox/Factored/MDP/CooperativeModel.hpp>
 #include <AIToolbox/Factored/MDP/Environments/SysAdmin.hpp>
+#include <AIToolbox/MDP/Experience.hpp>
+#include <AIToolbox/MDP/SparseExperience.hpp>
+#include <AIToolbox/MDP/MaximumLikelihoodModel.hpp>
+#include <AIToolbox/MDP/SparseMaximumLikelihoodModel.hpp>
+#include <AIToolbox/Bandit/Model.hpp>
+#include <AIToolbox/Factored/Bandit/Model.hpp>
+#include <AIToolbox/Factored/Bandit/FlattenedModel.hpp>
+#include <AIToolbox/Factored/MDP/CooperativeExperience.hpp>
+#include <AIToolbox/Factored/MDP/CooperativeMaximumLikelihoodModel.hpp>
+#include <AIToolbox/Factored/MDP/CooperativeThompsonModel.hpp>
 
 using namespace verif;
 namespace AI = AIToolbox;
@@ -698,8 +708,137 @@ static void emit_sparse_model_witness() {
     Line l; l << "C08" << "sr" << "sparse"; l.nums(row); l << bestU << m.getExpectedReward(0, 0, 0) << "|" << s1 << rew; l.emit();
 }
 
+
+// ---------------------------------------------------------------- learned models: MaximumLikelihoodModel / SparseMaximumLikelihoodModel
+// rows are visit counts over their total (non-dyadic); never-visited pairs are self loops
+static void emit_learned(Rng & rng, int nsamples) {
+    const size_t S = (size_t)rng.range(2, 5), A = (size_t)rng.range(1, 3);
+    const unsigned root = (unsigned)rng.next();
+    const bool sparse = rng.coin(), syncNow = !rng.coin(1, 4);
+    const int K = (int)rng.range(0, 40);
+    std::uniform_real_distribution<double> d01(0.0, 1.0);
+    auto go = [&](auto & exp, auto makeModel, const char * kind) {
+        for (int k = 0; k < K; ++k) exp.record(rng.below(S), rng.below(A), rng.below(S), (double)rng.range(-8, 8) / 4.0);
+        AI::Seeder::setRootSeed(root);
+        auto m = makeModel(exp);
+        if (!syncNow && rng.coin()) m.sync();
+        SeederMirror sm(root);
+        std::mt19937 m1(sm.next());
+        std::vector<double> row;
+        for (int i = 0; i < nsamples; ++i) {
+            const size_t s = rng.below(S), a = rng.below(A);
+            const double u = d01(m1);
+            auto [s1, rew] = m.sampleSR(s, a);
+            rowOf(m.getTransitionFunction(a), s, row);
+            Line l; l << "C08" << "sr" << kind; l.nums(row); l << u << m.getExpectedReward(s, a, 0) << "|" << s1 << rew; l.emit();
+            if constexpr (isSparseMat<decltype(m.getTransitionFunction(a))>) {
+                Line x; x << "C08" << "spsr" << S; putEntries(x, m.getTransitionFunction(a), s);
+                x << u << m.getRewardFunction().coeff(s, a) << "|" << s1 << rew; x.emit();
+            }
+        }
+    };
+    if (!sparse) { AI::MDP::Experience e(S, A); go(e, [&](auto & x) { return AI::MDP::MaximumLikelihoodModel<AI::MDP::Experience>(x, 0.9, syncNow); }, "ml-dense"); }
+    else { AI::MDP::SparseExperience e(S, A); go(e, [&](auto & x) { return AI::MDP::SparseMaximumLikelihoodModel<AI::MDP::SparseExperience>(x, 0.9, syncNow); }, "ml-sparse"); }
+    std::printf("#stat learned_%s_%s 1\n", sparse ? "sparse" : "dense", syncNow ? "synced" : "lazy");
+}
+
+// ---------------------------------------------------------------- bandit models (reward samples)
+// Factored::Bandit::Model over uniform arms [lo, hi): every group owns a Bandit::Model with its own engine (one Seeder
+// seed each, in construction order); FlattenedModel converts a joint action id with toFactors and sums the group rewards.
+static void emit_fband(Rng & rng, int nsamples) {
+    using Dist = std::uniform_real_distribution<double>;
+    const unsigned root = (unsigned)rng.next();
+    const size_t nAgents = (size_t)rng.range(2, 4);
+    AI::Factored::Action A(nAgents); for (auto & x : A) x = (size_t)rng.range(2, 3);
+    const size_t G = (size_t)rng.range(1, 3);
+    std::vector<AI::Factored::PartialKeys> groups(G);
+    std::vector<std::vector<std::pair<double, double>>> armTab(G);
+    std::vector<AI::Bandit::Model<Dist>> arms;
+    AI::Seeder::setRootSeed(root);
+    for (size_t g = 0; g < G; ++g) {
+        // non-prefix keys: a random non-empty subset of the agents, ascending
+        do { groups[g].clear(); for (size_t i = 0; i < nAgents; ++i) if (rng.coin()) groups[g].push_back(i); } while (groups[g].empty() || groups[g].size() > 2);
+        const size_t n = AI::Factored::factorSpacePartial(groups[g], A);
+        std::vector<std::tuple<double, double>> args;
+        for (size_t k = 0; k < n; ++k) { double lo = (double)rng.range(-8, 8) / 4.0, w = std::ldexp(1.0, (int)rng.range(-1, 2)); args.emplace_back(lo, lo + w); armTab[g].push_back({lo, lo + w}); }
+        arms.emplace_back(args);
+    }
+    AI::Factored::Bandit::Model<Dist> fm(A, groups, std::move(arms));
+    AI::Factored::Bandit::FlattenedModel<Dist> flat(fm);
+    SeederMirror sm(root);
+    std::vector<std::mt19937> eng; for (size_t g = 0; g < G; ++g) eng.emplace_back(sm.next());
+    std::uniform_real_distribution<double> d01(0.0, 1.0);
+    const size_t total = AI::Factored::factorSpace(A);
+    for (int t = 0; t < nsamples; ++t) {
+        const bool useFlat = rng.coin();
+        std::vector<double> us; for (size_t g = 0; g < G; ++g) us.push_back(d01(eng[g]));
+        Line l; l << "C08" << "fband" << (useFlat ? "flat" : "joint"); l.nats(A); l << G;
+        for (size_t g = 0; g < G; ++g) { l.nats(groups[g]); l << (size_t)armTab[g].size(); for (auto & ar : armTab[g]) { l << ar.first; l << ar.second; } }
+        if (useFlat) {
+            const size_t id = rng.below(total);
+            const double r = flat.sampleR(id);
+            l << (size_t)0 << id; l.nums(us); l << "|" << (size_t)1 << r; l.emit();
+        } else {
+            AI::Factored::Action a(nAgents); for (size_t i = 0; i < nAgents; ++i) a[i] = rng.below(A[i]);
+            const auto & rews = fm.sampleR(a);
+            std::vector<double> o(rews.data(), rews.data() + rews.size());
+            l.nats(a); l << (size_t)0; l.nums(us); l << "|"; l.nums(o); l.emit();
+        }
+    }
+    std::printf("#stat fband_groups_%zu 1\n", G);
+}
+
+// ---------------------------------------------------------------- factored learned models: is the engine seeded?
+// CooperativeMaximumLikelihoodModel: every factor's sample against the draws of an mt19937 seeded with the Seeder seed the
+// object is expected to take.  CooperativeThompsonModel: its constructor samples the whole transition function from the
+// posterior with the object's engine, so two objects built from the same experience under different root seeds must differ.
+static void emit_seeded_factored(Rng & rng, bool thompson, unsigned root) {
+    namespace FM = AI::Factored::MDP;
+    AI::Seeder::setRootSeed(root);
+    auto truth = FM::makeSysAdminUniRing(3, 0.1, 0.2, 0.3, 0.4, 0.2, 0.2, 0.1);     // takes the first seed
+    FM::CooperativeExperience exp(truth.getGraph());
+    const auto & S = truth.getS(); const auto & A = truth.getA();
+    for (int k = 0; k < 300; ++k) {
+        AI::Factored::State s(S.size()); AI::Factored::Action a(A.size());
+        for (size_t i = 0; i < S.size(); ++i) s[i] = rng.below(S[i]);
+        for (size_t i = 0; i < A.size(); ++i) a[i] = rng.below(A[i]);
+        auto [s1, rews] = truth.sampleSRs(s, a);
+        AI::Factored::Rewards rr(S.size()); rr.setZero(); for (long i = 0; i < std::min<long>(rews.size(), rr.size()); ++i) rr[i] = rews[i];
+        exp.record(s, a, s1, rr);
+    }
+    if (!thompson) {
+        FM::CooperativeMaximumLikelihoodModel ml(exp, 0.9, true);
+        SeederMirror sm(root); sm.next();
+        std::mt19937 mir(sm.next());
+        std::uniform_real_distribution<double> d01(0.0, 1.0);
+        Line l; l << "C08" << "seededrows" << "CooperativeMaximumLikelihoodModel";
+        std::vector<std::vector<double>> rows; std::vector<double> us; std::vector<size_t> outs;
+        for (int t = 0; t < 6; ++t) {
+            AI::Factored::State s(S.size()); AI::Factored::Action a(A.size());
+            for (size_t i = 0; i < S.size(); ++i) s[i] = rng.below(S[i]);
+            for (size_t i = 0; i < A.size(); ++i) a[i] = rng.below(A[i]);
+            auto [s1, rew] = ml.sampleSR(s, a);
+            for (size_t i = 0; i < S.size(); ++i) {
+                std::vector<double> row; rowOf(ml.getTransitionFunction().transitions[i], ml.getGraph().getId(i, s, a), row);
+                rows.push_back(row); us.push_back(d01(mir)); outs.push_back(s1[i]);
+            }
+        }
+        l << (size_t)rows.size(); for (auto & r : rows) l.nums(r); l.nums(us); l << "|"; l.nats(outs); l.emit();
+    } else {
+        auto table = [&](unsigned r) {
+            AI::Seeder::setRootSeed(r);
+            FM::CooperativeThompsonModel tm(exp, 0.9);
+            std::vector<double> v;
+            for (auto & m : tm.getTransitionFunction().transitions) for (long i = 0; i < m.rows(); ++i) for (long j = 0; j < m.cols(); ++j) v.push_back(m(i, j));
+            return v;
+        };
+        const auto t1 = table(root), t2 = table(root + 1);
+        Line l; l << "C08" << "seedvar" << "CooperativeThompsonModel"; l.nums(t1); l << "|"; l.nums(t2); l.emit();
+    }
+}
+
 // ---------------------------------------------------------------- cases
-static const long kWitness = 24;
+static const long kWitness = 26;
 
 // exhaustive small scope: every vector k/8 with 2..4 entries (zeros anywhere, mass anywhere)
 static std::vector<std::vector<double>> g_small;
@@ -752,6 +891,8 @@ static void witness(Rng & rng, long idx) {
         }
         case 22: emit_seeded(rng, false, 1); break;                               // POMDP::Model(NO_CHECK): engine not seeded from the Seeder
         case 23: emit_seeded(rng, true, 2); break;                                // POMDP::SparseModel(NO_CHECK) likewise
+        case 24: emit_seeded_factored(rng, false, 3); break;                      // CooperativeMaximumLikelihoodModel: engine never seeded
+        case 25: emit_seeded_factored(rng, true, 4); break;                       // CooperativeThompsonModel: posterior sample identical for every root seed
         case 20: emit_gamma_underflow(false); break;                             // Dirichlet(0.001, 0.001): both gamma draws underflow to 0 -> NaN
         case 21: emit_gamma_underflow(true); break;                              // Beta(0.001, 0.001) likewise
         case 14: emit_proj({1e308, 1e308}); break;                               // finite input whose sum overflows a double
@@ -781,7 +922,7 @@ void verif::verif_case(Rng & rng, long idx, const std::string & tier) {
     idx -= (long)g_small.size();
     const bool thorough = tier == "thorough";
     const size_t maxN = thorough ? 64 : 12;
-    int fam = (int)((idx - kWitness) % 12);
+    int fam = (int)((idx - kWitness) % 14);
     size_t n = (size_t)rng.range(1, rng.coin(3, 4) ? 8 : (long)maxN);
     int shape = 0;
     switch (fam) {
@@ -841,6 +982,8 @@ void verif::verif_case(Rng & rng, long idx, const std::string & tier) {
         case 8: emit_gamma(rng); emit_gamma(rng); std::printf("#stat gamma 1\n"); break;
         case 6: emit_models(rng, thorough ? 12 : 8); std::printf("#stat models 1\n"); break;
         case 10: emit_isprobm(rng); emit_isprobm(rng); break;
+        case 12: emit_learned(rng, thorough ? 12 : 8); break;
+        case 13: emit_fband(rng, thorough ? 10 : 6); break;
         case 11: {
             if (rng.coin(1, 8)) { emit_seeded(rng, rng.coin(), (unsigned)rng.next()); std::printf("#stat seeded 1\n"); }
             emit_traj(rng, (int)rng.range(1, thorough ? 24 : 10)); std::printf("#stat traj 1\n"); break;
